@@ -728,6 +728,13 @@ func Go(f func()) { GoNamed("", f) }
 func GoNamed(name string, f func()) {
 	s := cur
 	if s == nil {
+		if fs := free; fs != nil {
+			go func() {
+				defer fs.recoverPanic()
+				f()
+			}()
+			return
+		}
 		go f()
 		return
 	}
